@@ -371,7 +371,10 @@ func Mutate(s *core.Stream, b []byte) []byte {
 		return []byte{critical[s.Draw(len(critical))]}
 	}
 	out := append([]byte(nil), b...)
-	switch s.Weighted(3, 3, 2, 2, 1) {
+	switch s.Weighted(3, 3, 2, 2, 1, 1) {
+	case 5: // insert a well-formed multi-byte character (outside strings it is an invalid character of 2-4 bytes)
+		i := s.Draw(len(out) + 1)
+		out = append(out[:i:i], append([]byte([]string{"é", "€", "𐀀", "\u2028"}[s.Draw(4)]), out[i:]...)...)
 	case 0: // truncate
 		out = out[:s.Draw(len(out))]
 	case 1: // replace
